@@ -36,6 +36,39 @@ type Request struct {
 	Vars map[string]interface{}
 	// Ops lists the operation names of the document.
 	Ops []string
+	// VarTypes maps every variable of the document to its declared type.
+	VarTypes map[string]string
+}
+
+// DrawVars draws a fresh variable map for the document (values vary from call
+// to call; some variables are left out so that defaults apply).
+func (r *Request) DrawVars(t *tape.Tape) map[string]interface{} {
+	out := map[string]interface{}{}
+	names := make([]string, 0, len(r.VarTypes))
+	for n := range r.VarTypes {
+		names = append(names, n)
+	}
+	sort.Strings(names)
+	for _, n := range names {
+		if t.Bool(1, 4) {
+			if _, has := r.Vars[n]; !has {
+				continue // has a default: leave it out
+			}
+		}
+		switch strings.TrimSuffix(r.VarTypes[n], "!") {
+		case "String":
+			if n == "kn" || n == "nm" {
+				out[n] = "k" + strconv.Itoa(t.Draw(5))
+			} else {
+				out[n] = "v" + strconv.Itoa(t.Draw(9))
+			}
+		case "Int":
+			out[n] = 20 + t.Draw(50)
+		case "Boolean":
+			out[n] = t.Bool(1, 2)
+		}
+	}
+	return out
 }
 
 // ReqOpt tunes the request generator.
@@ -55,6 +88,8 @@ type ReqOpt struct {
 	// NoUnion leaves union-typed fields out (the interface strategy cannot bind
 	// union members: every object is the same Go wrapper type).
 	NoUnion bool
+	// UnknownArgs sometimes adds an argument the field does not declare.
+	UnknownArgs bool
 	// NoFragments leaves inline fragments and fragment spreads out (they can
 	// repeat a response key of the enclosing selection set).
 	NoFragments bool
@@ -144,6 +179,9 @@ func (g *reqGen) argsFor(kind string) string {
 		}
 	case "rename":
 		parts = []string{"old: " + strconv.Quote("k"+strconv.Itoa(g.t.Draw(4))), "new: \"zz\""}
+	}
+	if g.o.UnknownArgs && len(parts) > 0 && g.t.Bool(1, 6) {
+		parts = append(parts, "zz"+strconv.Itoa(g.t.Draw(2))+": 1")
 	}
 	if g.o.ShuffleArgs && len(parts) > 1 && g.t.Bool(1, 2) {
 		parts[0], parts[1] = parts[1], parts[0]
@@ -302,7 +340,7 @@ func GenRequest(t *tape.Tape, o ReqOpt) *Request {
 	if o.MultiOp {
 		nops = 1 + t.Draw(3)
 	}
-	req := &Request{Vars: map[string]interface{}{}}
+	req := &Request{Vars: map[string]interface{}{}, VarTypes: map[string]string{}}
 	var doc strings.Builder
 	for i := 0; i < nops; i++ {
 		g.vars, g.defs = map[string]string{}, map[string]string{}
@@ -333,6 +371,9 @@ func GenRequest(t *tape.Tape, o ReqOpt) *Request {
 		hdr := kind
 		if name != "" {
 			hdr += " " + name
+		}
+		for n, ty := range g.vars {
+			req.VarTypes[n] = ty
 		}
 		if len(g.vars) > 0 {
 			names := make([]string, 0, len(g.vars))
